@@ -2,8 +2,15 @@ package props
 
 import (
 	"bytes"
+	"crypto/ecdsa"
+	"crypto/elliptic"
+	crand "crypto/rand"
+	"crypto/tls"
+	"crypto/x509"
+	"crypto/x509/pkix"
 	"errors"
 	"fmt"
+	"math/big"
 	"net"
 	"runtime"
 	"strconv"
@@ -585,6 +592,13 @@ func c17(c *core.Ctx) {
 		c.Count("shared_config_pairs", 1)
 		c.Distinct(gen.HashString("shared" + pair[0] + pair[1]))
 	})
+	// real TLS handshakes with certificate verification ON: the URI's host (name, IPv4 or IPv6 literal) is what the
+	// client verifies; a certificate for another host must be refused
+	hs := []string{"stuns:tls.example.org", "turns:tls.example.org:443?transport=tcp", "stuns:192.0.2.7", "turns:192.0.2.7:5350?transport=tcp", "stuns:[2001:db8::7]", "turns:[2001:db8::7]?transport=tcp"}
+	c.SectionSerial("tls-handshake", int64(2*len(hs)), func(i int64, _ *gen.Rand) {
+		c17Handshake(c, hs[int(i)%len(hs)], int(i) < len(hs))
+		c.Distinct(gen.HashString(fmt.Sprintf("hs%d", i)))
+	})
 	// ... and all 5 x 3 hand-made combinations
 	c.SectionSerial("dial-handmade", 15*2, func(i int64, _ *gen.Rand) {
 		sch := stun.SchemeType(int(i) % 15 / 3)
@@ -597,4 +611,124 @@ func c17(c *core.Ctx) {
 		c17CheckDial(c, u, false, fmt.Sprintf("hand-made scheme=%d proto=%d", sch, pr))
 		c.Distinct(gen.HashString(fmt.Sprintf("hand%d", i)))
 	})
+}
+
+// ---- a real TLS handshake over an in-memory pipe: the host must be the server name the client verifies ----
+
+type pipeNet struct {
+	fakeNet
+	server net.Conn
+}
+
+func (n *pipeNet) Dial(network, address string) (net.Conn, error) {
+	cl, sv := net.Pipe()
+	n.server = sv
+	n.mu.Lock()
+	n.dials = append(n.dials, newFakeConn("Dial:"+network, address, nil))
+	n.mu.Unlock()
+
+	return cl, nil
+}
+
+// selfSigned makes a CA-less certificate valid for the given DNS names and IPs.
+func selfSigned(dns []string, ips []net.IP) (tls.Certificate, *x509.CertPool, error) {
+	key, err := ecdsa.GenerateKey(elliptic.P256(), crand.Reader)
+	if err != nil {
+		return tls.Certificate{}, nil, err
+	}
+	tmpl := &x509.Certificate{
+		SerialNumber: big.NewInt(1), Subject: pkix.Name{CommonName: "c17"}, NotBefore: time.Now().Add(-time.Hour), NotAfter: time.Now().Add(24 * time.Hour),
+		KeyUsage: x509.KeyUsageDigitalSignature | x509.KeyUsageCertSign, ExtKeyUsage: []x509.ExtKeyUsage{x509.ExtKeyUsageServerAuth},
+		BasicConstraintsValid: true, IsCA: true, DNSNames: dns, IPAddresses: ips,
+	}
+	der, err := x509.CreateCertificate(crand.Reader, tmpl, tmpl, &key.PublicKey, key)
+	if err != nil {
+		return tls.Certificate{}, nil, err
+	}
+	cert, _ := x509.ParseCertificate(der)
+	pool := x509.NewCertPool()
+	pool.AddCert(cert)
+
+	return tls.Certificate{Certificate: [][]byte{der}, PrivateKey: key}, pool, nil
+}
+
+// c17Handshake dials a secure URI whose server presents a certificate for exactly that host, verification ON.
+func c17Handshake(c *core.Ctx, raw string, certHostMatches bool) {
+	c.Eval(1)
+	u, err := stun.ParseURI(raw)
+	if err != nil {
+		c.Violate("valid-rejected", "valid-rejected", map[string]interface{}{"input": raw, "err": err.Error()})
+
+		return
+	}
+	var dns []string
+	var ips []net.IP
+	host := u.Host
+	if !certHostMatches {
+		host = "other.example.net"
+	}
+	if ip := net.ParseIP(host); ip != nil {
+		ips = []net.IP{ip}
+	} else {
+		dns = []string{host}
+	}
+	cert, pool, err := selfSigned(dns, ips)
+	if err != nil {
+		fatalHarness("C17 certificate: " + err.Error())
+	}
+	pn := &pipeNet{}
+	cfg := &stun.DialConfig{Net: pn}
+	cfg.TLSConfig.RootCAs = pool
+	client, derr := stun.DialURI(u, cfg)
+	if derr != nil || pn.server == nil {
+		c.Violate("dial-failed", "dial-failed", map[string]interface{}{"input": raw, "err": fmt.Sprint(derr)})
+
+		return
+	}
+	srv := tls.Server(pn.server, &tls.Config{Certificates: []tls.Certificate{cert}, MinVersion: tls.VersionTLS12})
+	got := make(chan []byte, 1)
+	hsErr := make(chan error, 1)
+	go func() {
+		_ = srv.SetDeadline(time.Now().Add(15 * time.Second))
+		if err := srv.Handshake(); err != nil {
+			hsErr <- err
+
+			return
+		}
+		buf := make([]byte, 256)
+		n, _ := srv.Read(buf)
+		got <- buf[:n]
+	}()
+	ind := stun.MustBuild(stun.TransactionID, stun.NewType(stun.MethodBinding, stun.ClassIndication), stun.NewSoftware("c17-over-tls"))
+	sent := make(chan error, 1)
+	go func() { sent <- client.Indicate(ind) }()
+	detail := map[string]interface{}{"uri": raw, "certificate_valid_for": host}
+	verdict := ""
+	select {
+	case b := <-got:
+		if !bytes.Equal(b, ind.Raw) {
+			verdict = "server decrypted other bytes than the indication"
+		} else if !certHostMatches {
+			verdict = "handshake succeeded although the certificate is for another host: the host is not the verified server name"
+		}
+	case err := <-hsErr:
+		if certHostMatches {
+			verdict = "TLS handshake failed although the server's certificate is valid for the URI's host: " + err.Error()
+		}
+	case <-time.After(20 * time.Second):
+		c.Inconclusive(1)
+	}
+	_ = client.Close()
+	_ = pn.server.Close()
+	select {
+	case <-sent:
+	case <-time.After(10 * time.Second):
+	}
+	if verdict != "" {
+		detail["problem"] = verdict
+		c.Violate("server-name-verification", "server-name-verification", detail)
+
+		return
+	}
+	c.Count("tls_handshakes_verified", 1)
 }
